@@ -155,7 +155,29 @@ FailsGCWrite(e) ==
   LET r == Dec(e.schema, e.bytes, 1) IN
   Chk(r.ok /\ r.pos = Len(e.bytes) + 1 /\ Rep(e.schema, r.d, e.value, FALSE, "w"), "encoding produced while collections ran is not the encoding of the value")
 
+\* a file written by another implementation (BigQuery): the TLA+ container parser and reference decoder must
+\* accept it completely (an anchor for the reference itself: failure here is a specification bug), and what
+\* the library delivers must be what the reference decodes
+RECURSIVE CorpusDatums(_, _, _, _)
+CorpusDatums(e, pf, i, acc) ==
+  IF i > Len(pf.blocks) THEN [ok |-> TRUE, ds |-> acc]
+  ELSE LET dm == DecMany(e.schema, pf.blocks[i].payload, 1, pf.blocks[i].count, <<>>) IN
+       IF ~dm.ok \/ dm.pos # Len(pf.blocks[i].payload) + 1 \/ pf.blocks[i].sync # pf.hdr.sync THEN [ok |-> FALSE, ds |-> acc]
+       ELSE CorpusDatums(e, pf, i + 1, acc \o dm.ds)
+FailsCorpus(e) ==
+  LET pf == ParseFile(e.file) IN
+  IF ~pf.ok \/ e.indep # "ok" \/ ~MetaHas(pf.hdr.meta, KeySchema) \/ MetaGet(pf.hdr.meta, KeySchema) # e.schemaText THEN <<"SPECBUG: the reference container parser rejects a checked-in file">>
+  ELSE LET cd == CorpusDatums(e, pf, 1, <<>>) IN
+       IF ~cd.ok THEN <<"SPECBUG: the reference decoder rejects a checked-in file">>
+       ELSE IF e.panic # "" THEN <<"reader panicked">>
+       ELSE IF \A i \in 1..Len(cd.ds) : Fits(e.schema, cd.ds[i], e.target) THEN
+            Chk(e.err = "", "checked-in file rejected: " \o e.err)
+            \o Chk(Len(e.delivered) = Len(cd.ds), "wrong number of records from a checked-in file")
+            \o Chk(Len(e.delivered) # Len(cd.ds) \/ \A i \in 1..Len(cd.ds) : Rep(e.schema, cd.ds[i], e.delivered[i], FALSE, "r"), "delivered value is not what the reference decodes from the checked-in file")
+       ELSE Chk(e.err # "", "a value that does not fit the Go field was accepted")
+
 Fails(e) == CASE e.op = "vec_read" -> FailsVec(e) \o FailsLefts(e)
+              [] e.op = "corpus_read" -> FailsCorpus(e)
               [] e.op = "gc_roundtrip" -> FailsGC(e)
               [] e.op = "gc_write" -> FailsGCWrite(e)
               [] e.op = "gc_crash" -> <<"the process crashed while decoding / encoding under garbage collection (case open: " \o e.open \o ")">>
